@@ -29,3 +29,18 @@ package node
 
 //@ # An interface is marked for deletion only if none of its addresses (IPv4 or IPv6) is bound to a pod
 //@ guard store NetworkInterface.Status in releaseUnUsedIP: value != "Deleting" || ((forall k string :: k in target.IPv4 ==> target.IPv4[k].PodID == "") && (forall k string :: k in target.IPv6 ==> target.IPv6[k].PodID == ""))
+
+//@ for C02
+
+//@ # An address is bound to at most one pod: an owner is only written over "no owner" or over the same pod
+//@ guard store IP.PodID in assignIPFromLocalPool: value == "" || target.PodID == "" || target.PodID == value
+//@ # a fresh binding goes to a Valid address; a pod that reports an address is re-adopted onto exactly that address's entry
+//@ guard store IP.PodID in assignIPFromLocalPool: value == "" || target.Status == "Valid" || (info.IPv4 in ipv4Map && ipv4Map[info.IPv4].IP == target) || (info.IPv6 in ipv6Map && ipv6Map[info.IPv6].IP == target)
+//@ # a pod is bound to at most one IPv4 and one IPv6 address
+//@ guard store PodRequest.ipv4Ref in assignIPFromLocalPool: value == nil || target.ipv4Ref == nil
+//@ guard store PodRequest.ipv6Ref in assignIPFromLocalPool: value == nil || target.ipv6Ref == nil
+//@ # a freshly chosen address is Valid, unowned, on an interface that is attached and in use, on the pod's side of the RDMA partition
+//@ guard store PodRequest.ipv4Ref in assignIPFromLocalPool: value == nil || target.IPv4 != "" || (value.IP.Status == "Valid" && value.IP.PodID == "" && value.NetworkInterface.Status == "InUse" && (target.RequireERDMA ==> value.NetworkInterface.NetworkInterfaceTrafficMode == "HighPerformance") && (!target.RequireERDMA && enableEDRMA ==> value.NetworkInterface.NetworkInterfaceTrafficMode != "HighPerformance"))
+//@ guard store PodRequest.ipv6Ref in assignIPFromLocalPool: value == nil || target.IPv6 != "" || (value.IP.Status == "Valid" && value.IP.PodID == "" && value.NetworkInterface.Status == "InUse" && (target.RequireERDMA ==> value.NetworkInterface.NetworkInterfaceTrafficMode == "HighPerformance") && (!target.RequireERDMA && enableEDRMA ==> value.NetworkInterface.NetworkInterfaceTrafficMode != "HighPerformance"))
+//@ # dual stack: a freshly chosen IPv6 address comes from the interface that carries the pod's IPv4 address
+//@ guard store PodRequest.ipv6Ref in assignIPFromLocalPool: value == nil || target.IPv6 != "" || target.ipv4Ref == nil || value.NetworkInterface.ID == target.ipv4Ref.NetworkInterface.ID
